@@ -2553,7 +2553,16 @@ def rule_stage_control(repo):
     return r
 
 
-RULES = [rule_isa_doc, rule_encoding, rule_isa_set, rule_decode, rule_fl, rule_cl, rule_rtl, rule_arch, rule_cksum,
+def rule_cl_messages_copied(repo):
+    """the CL models of the examples receive their messages through CL queues, delay pipes and RTL->CL adapters, which copy an
+    accepted message with clone_deepcopy: a Bits message handed over by reference (the adapter passes the value object of its
+    RTL port, which the simulator updates in place) changes inside the queue when the next value is driven, and the CL model
+    computes on another message than FL / RTL do -- decided by C17 (R-C17-copy)"""
+    from rules.c17 import rule_copy
+    return rule_copy(repo)
+
+
+RULES = [rule_cl_messages_copied, rule_isa_doc, rule_encoding, rule_isa_set, rule_decode, rule_fl, rule_cl, rule_rtl, rule_arch, rule_cksum,
          rule_hazard_symmetry, rule_gating, rule_stage_regs, rule_stage_control]
 
 
